@@ -69,6 +69,11 @@ Theorem C14_path_sound : forall num nadd nsub nmul ndiv nmod neqb nltb nleb nzer
   run num nadd nsub nmul ndiv nmod neqb nltb nleb nzero of_nat of_digits doc sts roots = XOk l ->
   NoDup (map tuid l) /\ forall x, In x l -> exists t, In t roots /\ reach doc (length sts) t x.
 Proof. exact run_sound. Qed.
+(* ... and the result stays inside the document: started from elements of the document, a path selects elements of the document *)
+Theorem C14_path_inside_document : forall num nadd nsub nmul ndiv nmod neqb nltb nleb nzero of_nat of_digits doc sts roots l,
+  run num nadd nsub nmul ndiv nmod neqb nltb nleb nzero of_nat of_digits doc sts roots = XOk l ->
+  Forall (fun t => Sub t doc) roots -> Forall (fun x => Sub x doc) l.
+Proof. exact run_inside. Qed.
 (* predicates only filter: a step's predicates never add an element and keep a duplicate-free collection duplicate-free *)
 Theorem C14_predicates_only_filter : forall num nadd nsub nmul ndiv nmod neqb nltb nleb nzero of_nat of_digits doc ps l l',
   apply_preds num nadd nsub nmul ndiv nmod neqb nltb nleb nzero of_nat of_digits doc ps l = XOk l' ->
